@@ -528,6 +528,7 @@ func runC11(cases string, res *Result) {
 	}
 	c11ValuesHandedOver(res)
 	c11ListsWithRoomToGrow(res)
+	c11AliasesOfTheIncluder(res)
 	c11TemplatesThatIncludeThemselves(res)
 }
 
